@@ -7,7 +7,7 @@ from vlib.driver import Outcome, Sub
 from vlib import shim as shimmod
 
 LEVEL = "exploration"
-RULE = ("generated: one wake-capable field, single bunch at bucket 0 (two cases in three) or a train of 2-3 bunches with "
+RULE = ("generated: one wake-capable field, single bunch at bucket 0 (two cases in three) or a train of 1-3 bunches with "
         "their own profiles at bucket*spacing incl. empty buckets (per-bunch power against the wake of that bunch alone), n in 8..64, transform length N from the pool "
         "(even, odd, prime, power of two; N >= n), passive impedance (free space, parallel plates, resistive wall, "
         "collimator, factory sums, random passive samples), arbitrary profile (non-negative or signed).  Oracle: "
@@ -84,7 +84,7 @@ def run_case(case):
     P_all = s.ef_get(ef, "csr_power").astype(np.float64).copy()
     info = s.ef_info(ef)
     cls = ["z_" + case["zkind"], gen.nclass(N), "p_" + case["pkind"], "prelude" if case.get("prelude") else "fresh", "nb%d" % nb]
-    if nb > 1:
+    if nb > 1 or max(buckets) > 0:
         cls.append("gaps" if max(buckets) >= nb else "contiguous")
     dq = float(np.float32(np.float32(2 * L) / np.float32(n - 1)))
     df = info["fdelta"]
@@ -176,8 +176,9 @@ def cases(draw):
         n = min(n, N)
     layout = {}
     if draw(st.integers(0, 2)) == 0:
-        # a train: 2-3 bunches with their own profiles at bucket*spacing (empty buckets in between allowed)
-        nb = draw(st.integers(2, 3))
+        # a train: 1-3 bunches with their own profiles at bucket*spacing (empty buckets in between / behind allowed, so a
+        # single bunch need not sit at bucket 0)
+        nb = draw(st.integers(1, 3))
         n, buckets, spacing, N, _ = gen.field_layout(draw, nb, nmin=8, nmax=48, nlimit=200 if zk in ("plates", "factory") else 512)
         layout = dict(buckets=buckets, spacing=spacing)
     return dict(layout, n=n, N=N, dseed=draw(gen.seeds()), zkind=zk, pkind=draw(st.sampled_from(["pos", "gauss", "signed"])),
